@@ -52,6 +52,32 @@ json.dump({'instrumented_suite_pass':len(p),'instrumented_suite_fail':sorted(f)}
 print('instrumentation self-check: %d repository tests pass on the instrumented build (pass-through mode), %d fail %s' % (len(p),len(f),sorted(f)))
 "
   SELF="-selfcheck $scratch/selfcheck.json"
+  # real networks (free-running, uninstrumented build of the same tree): tcp, unix, http, ws, inproc x TLS x header
+  # encoders x body codecs x poll x buffer sizes; every configuration in its own subprocess
+  cp /repo/go.sum $V/real/go.sum 2>/dev/null
+  python3 - "$REPO" "$scratch/plain-overlay.json" <<'PY'
+import json,sys,os
+repo,out=sys.argv[1],sys.argv[2]
+r={}
+if repo!="/repo":
+    for f in os.listdir(repo):
+        if f.endswith(".go") and not f.endswith("_test.go"): r["/repo/"+f]=os.path.join(repo,f)
+    for f in os.listdir("/repo"):
+        if f.endswith(".go") and not f.endswith("_test.go") and "/repo/"+f not in r: r["/repo/"+f]=""
+json.dump({"Replace":r},open(out,"w"))
+PY
+  if (cd $V/real && go build -overlay $scratch/plain-overlay.json -o $scratch/mcreal . 2>$scratch/real-build.log); then
+    mkdir -p $scratch/realdir
+    $scratch/mcreal run -out $scratch/real.json -dir $scratch/realdir -seed ${VERIF_SEED:-0} | tail -40
+    SELF="$SELF -real $scratch/real.json"
+  else
+    echo "WARNING real-network runner did not build"; head -5 $scratch/real-build.log
+  fi
+fi
+if [ "$PROP" = "C03" ] && [ "$TIER" = "thorough" ]; then
+  # environment conformance: every operation sequence up to length 4 on the harness message pipe and on real
+  # TCP / UNIX socket pairs under the real socket.NewMessages framing must give the same observations
+  $scratch/mc conform -out $scratch/conform.json && SELF="$SELF -conform $scratch/conform.json"
 fi
 OUT=$V
 if [ "$REPO" != "/repo" ]; then OUT=${VERIF_OUT:-$scratch/out}; mkdir -p $OUT/evidence $OUT/replays; fi
